@@ -115,7 +115,12 @@ def type_infer(t, *, forbid_internal=True):
                     t.T = incr_sctxt[t.name]
                 else:
                     t.T = new_type()
-                    incr_sctxt[t.name] = t.T
+            # All occurrences of a variable have the same type, also those
+            # whose type is given.
+            if t.name in incr_sctxt:
+                unify(t.T, incr_sctxt[t.name])
+            else:
+                incr_sctxt[t.name] = t.T
             return t.T
 
         elif t.is_var():
@@ -126,7 +131,12 @@ def type_infer(t, *, forbid_internal=True):
                     t.T = incr_ctxt[t.name]
                 else:
                     t.T = new_type()
-                    incr_ctxt[t.name] = t.T
+            # All occurrences of a variable have the same type, also those
+            # whose type is given.
+            if t.name in incr_ctxt:
+                unify(t.T, incr_ctxt[t.name])
+            else:
+                incr_ctxt[t.name] = t.T
             return t.T
 
         # Const case: if type is not known, obtain it from theory,
